@@ -416,7 +416,14 @@ pub fn build_sprite(t: &mut Tape, c: &GenCfg) -> Sprite {
             let tw = 1 + t.below(c.max_tile as u32) as u16;
             let th = if t.chance(1, 2) { tw } else { 1 + t.below(c.max_tile as u32) as u16 };
             let cmax = if t.chance(1, 6) { 40 } else { 6 };
-            let count = 1 + t.below(cmax);
+            let mut count = 1 + t.below(cmax);
+            let (mut tw, mut th) = (tw, th);
+            if t.chance(1, 25) {
+                // tile ids beyond 8 (and rarely 16) bits: many 1x1 / 1x2 tiles
+                count = t.pick(&[255u32, 256, 257, 300, 300, 65537]);
+                tw = 1;
+                th = 1 + t.below(2) as u16;
+            }
             let per = tw as usize * th as usize;
             let mut pixels = Vec::new();
             // tile 0 fully transparent
@@ -547,8 +554,8 @@ pub fn build_sprite(t: &mut Tape, c: &GenCfg) -> Sprite {
                     _ => {
                         let (cw, ch) = match t.below(12) {
                             0 => (1, 1),
-                            1 => (1 + t.below(3) as u16, 1 + t.below(3000) as u16),
-                            2 => (1 + t.below(3000) as u16, 1 + t.below(3) as u16),
+                            1 => (1 + t.below(3) as u16, if t.chance(1, 12) { t.pick(&[65535u16, 32768, 256, 255]) } else { 1 + t.below(3000) as u16 }),
+                            2 => (if t.chance(1, 12) { t.pick(&[65535u16, 32768, 256, 255]) } else { 1 + t.below(3000) as u16 }, 1 + t.below(3) as u16),
                             3 => (width.min(64), height.min(64)),
                             _ => (1 + t.below(c.max_cel as u32) as u16, 1 + t.below(c.max_cel as u32) as u16),
                         };
@@ -566,8 +573,13 @@ pub fn build_sprite(t: &mut Tape, c: &GenCfg) -> Sprite {
                 let nty = (height as i64 + unit.1 as i64 - 1) / unit.1 as i64;
                 let stx = (cw / unit.0) as i64;
                 let sty = (ch / unit.1) as i64;
-                let ox = if t.chance(1, 3) { 0 } else { t.range(-stx, ntx + 1) };
-                let oy = if t.chance(1, 3) { 0 } else { t.range(-sty, nty + 1) };
+                let far = |t: &mut Tape, unit: u16| -> i64 {
+                    // tile-aligned offsets at the ends of the i16 range
+                    let m = 32767 / unit as i64;
+                    t.pick(&[-m, m, -m + 1, m - 1])
+                };
+                let ox = if t.chance(1, 3) { 0 } else if t.chance(1, 10) { far(t, unit.0) } else { t.range(-stx, ntx + 1) };
+                let oy = if t.chance(1, 3) { 0 } else if t.chance(1, 10) { far(t, unit.1) } else { t.range(-sty, nty + 1) };
                 ((ox * unit.0 as i64).clamp(-32768, 32767) as i16 / unit.0 as i16 * unit.0 as i16, (oy * unit.1 as i64).clamp(-32768, 32767) as i16 / unit.1 as i16 * unit.1 as i16)
             } else {
                 (offset_for(t, width, cw, c.extreme_offsets), offset_for(t, height, ch, c.extreme_offsets))
@@ -642,8 +654,18 @@ pub fn build_plan(t: &mut Tape) -> Plan {
         legacy_beside_new: t.chance(1, 3),
         shuffle: t.chance(1, 2),
         color_profile: t.pick(&[0u8, 0, 1, 2]),
-        pad_to: if t.chance(1, 90) { (t.below(3), t.pick(&[65535u32, 65534, 65536, 65535])) } else { (0, 0) },
+        pad_to: (0, 0),
     }
+}
+
+/// Plans for checks that can afford a frame padded to the 65534/65535/65536 chunk-count boundary
+/// (C01, C07): same as build_plan, plus that padding in about 1 of 90 cases.
+pub fn build_plan_padded(t: &mut Tape) -> Plan {
+    let mut p = build_plan(t);
+    if t.chance(1, 90) {
+        p.pad_to = (t.below(3), t.pick(&[65535u32, 65534, 65536, 65535]));
+    }
+    p
 }
 
 pub fn tape_strategy(max: usize) -> impl proptest::strategy::Strategy<Value = Vec<u32>> {
